@@ -300,12 +300,30 @@ def load_known():
     return json.load(open(p)).get("findings", [])
 
 
+def evidence_dir():
+    """/verif/evidence, unless VERIF_EVIDENCE_DIR says otherwise (bin/mutants.py sets it: a run against a patched
+    tree must never overwrite the evidence of the unchanged one)."""
+    return os.environ.get("VERIF_EVIDENCE_DIR") or os.path.join(VERIF, "evidence")
+
+
+def repo_state():
+    """HEAD and cleanliness of /repo's working tree, recorded in the evidence."""
+    try:
+        head = subprocess.run(["git", "-C", REPO, "log", "--format=%h", "-1"], stdout=subprocess.PIPE, timeout=30).stdout.decode().strip()
+        dirty = subprocess.run(["git", "-C", REPO, "status", "--porcelain"], stdout=subprocess.PIPE, timeout=30).stdout.decode().strip()
+        return {"repo_head": head, "repo_worktree_clean": dirty == ""}
+    except Exception:
+        return {"repo_head": "?", "repo_worktree_clean": False}
+
+
 def write_evidence(prop, tier, seed, level, coverage, assumptions, wall, violations):
-    os.makedirs(os.path.join(VERIF, "evidence"), exist_ok=True)
+    os.makedirs(evidence_dir(), exist_ok=True)
+    coverage = dict(coverage)
+    coverage.update(repo_state())
     ev = {"property_id": prop, "tier": tier, "seed": seed, "level": level, "coverage": coverage,
           "assumptions": assumptions, "wall_s": round(wall, 2), "violations": violations}
-    tmp = os.path.join(VERIF, "evidence", prop + ".json.tmp")
+    tmp = os.path.join(evidence_dir(), prop + ".json.tmp")
     with open(tmp, "w") as f:
         json.dump(ev, f, indent=1, ensure_ascii=True)
         f.write("\n")
-    os.replace(tmp, os.path.join(VERIF, "evidence", prop + ".json"))
+    os.replace(tmp, os.path.join(evidence_dir(), prop + ".json"))
